@@ -370,10 +370,158 @@ mod xen {
         runs
     }
 
+    /// Transfers between the region and a real descriptor (the read(2)/write(2) path): the system
+    /// call itself is the access, so at the moment it is issued its buffer must lie inside a
+    /// mapping that is live then, and the data that arrives must be the guest's.
+    fn fd_transfers(ctx: &Ctx, r: &Region, state: &[u8], thorough: bool) -> u64 {
+        use crate::interpose::{net_mapped, peek_log, start_recording, stop_recording, with_io_handler, IoAnswer, IoReq};
+        use std::io::{Read, Seek, SeekFrom, Write};
+        use std::os::fd::AsRawFd;
+        use vm_memory::Bytes;
+        let on_demand = r.kind == "grant-on-demand";
+        let vs = match r.reg.as_volatile_slice() {
+            Ok(v) => v,
+            Err(_) => return 0,
+        };
+        let l = r.len;
+        let mut offs: Vec<usize> = vec![0, 1, 4090, 4095, 4096, 4097, l - 8, l - 1, l, l + 1];
+        let mut counts: Vec<usize> = vec![0, 1, 2, 6, 12, 4096, 4097];
+        if thorough {
+            offs.extend([7, 4094, 4100, 8191.min(l - 1), l - 4097]);
+            counts.extend([3, 8, 16, 4095, 8192, l]);
+        }
+        offs.sort();
+        offs.dedup();
+        let names = ["write_volatile_to(fd)", "write_all_volatile_to(fd)", "read_volatile_from(fd)", "read_exact_volatile_from(fd)"];
+        let mut runs = 0;
+        for (k, name) in names.iter().enumerate() {
+            for &off in &offs {
+                for &count in &counts {
+                    runs += 1;
+                    ctx.case(count > 0);
+                    r.set_state(state);
+                    r.emu.take_log();
+                    let key_base = format!("C17/xen/{}/{}", r.kind, name);
+                    let rp = || json!({"region": r.kind, "region_len": l, "op": name, "offset": off, "count": count});
+                    let mut f = crate::layouts::tempfile().unwrap();
+                    let data: Vec<u8> = (0..count + 16).map(|i| 0x90u8.wrapping_add((i * 7 + off) as u8) | 0x80).collect();
+                    if k >= 2 {
+                        f.write_all(&data).unwrap();
+                        f.seek(SeekFrom::Start(0)).unwrap();
+                    }
+                    let fd = f.as_raw_fd();
+                    let outside = std::rc::Rc::new(std::cell::RefCell::new(Vec::<String>::new()));
+                    let o2 = outside.clone();
+                    start_recording();
+                    let describe = || (format!("{}/crash", key_base), format!("{} at {:#x} count {} crashed", name, off, count), rp());
+                    let res = crate::crash::guarded(ctx, &describe, || {
+                        crate::crash::quiet_unwind(|| {
+                            with_io_handler(
+                                Box::new(move |q: &IoReq| {
+                                    if q.fd == fd && q.count > 0 && on_demand {
+                                        let space = net_mapped(&peek_log());
+                                        let a = q.buf as usize;
+                                        if !space.iter().any(|(s, e)| *s <= a && a + q.count <= *e) {
+                                            o2.borrow_mut().push(format!("{}(2) of {} bytes at {:#x}; mappings live at that moment: {:x?}", if q.is_read { "read" } else { "write" }, q.count, a, space));
+                                        }
+                                    }
+                                    IoAnswer::Pass
+                                }),
+                                || match k {
+                                    0 => vs.write_volatile_to(off, &mut f, count).map(Some),
+                                    1 => vs.write_all_volatile_to(off, &mut f, count).map(|_| None),
+                                    2 => vs.read_volatile_from(off, &mut f, count).map(Some),
+                                    _ => vs.read_exact_volatile_from(off, &mut f, count).map(|_| None),
+                                },
+                            )
+                        })
+                    });
+                    stop_recording();
+                    let res = match res {
+                        Some(Ok(r)) => r,
+                        Some(Err(_)) => {
+                            ctx.fail(&format!("{}/panic", key_base), &format!("{} at {:#x} count {} panicked", name, off, count), rp());
+                            continue;
+                        }
+                        None => continue,
+                    };
+                    let after = r.state();
+                    let mut bad: Option<(&str, String)> = None;
+                    let fits = off.checked_add(count).map_or(false, |e| e <= l);
+                    // expected transfer length
+                    let want: Option<usize> = match k {
+                        0 | 2 => (off < l || (off == l && res.is_ok())).then(|| count.min(l - off.min(l))),
+                        _ => fits.then_some(count),
+                    };
+                    match (&res, want) {
+                        (Ok(got), Some(n)) => {
+                            if let Some(g) = got {
+                                if *g != n {
+                                    bad = Some(("result", format!("returned Ok({}), expected Ok({})", g, n)));
+                                }
+                            }
+                            if bad.is_none() {
+                                if k < 2 {
+                                    let mut sink = Vec::new();
+                                    f.seek(SeekFrom::Start(0)).unwrap();
+                                    f.read_to_end(&mut sink).unwrap();
+                                    if sink != state[off.min(l)..off.min(l) + n] {
+                                        bad = Some(("sink", format!("the descriptor received {} bytes {}.., the guest holds {}..", sink.len(), hex(&sink[..sink.len().min(16)]), hex(&state[off.min(l)..off.min(l) + n.min(16)]))));
+                                    } else if after != state {
+                                        bad = Some(("memory", "guest memory changed by a write to a descriptor".into()));
+                                    }
+                                } else {
+                                    let mut m = state.to_vec();
+                                    m[off.min(l)..off.min(l) + n].copy_from_slice(&data[..n]);
+                                    if after != m {
+                                        let i = (0..l).find(|i| after[*i] != m[*i]).unwrap_or(0);
+                                        bad = Some(("memory", format!("guest memory differs from the model at offset {:#x}: {:#x} vs {:#x}", i, after[i], m[i])));
+                                    } else if f.stream_position().unwrap() != n as u64 {
+                                        bad = Some(("source-position", format!("{} bytes consumed from the descriptor, {} transferred", f.stream_position().unwrap(), n)));
+                                    }
+                                }
+                            }
+                        }
+                        (Ok(got), None) => bad = Some(("result", format!("returned Ok({:?}) for a range that does not fit", got))),
+                        (Err(e), Some(n)) => bad = Some(("result", format!("returned {:?}, expected a transfer of {} bytes", e, n))),
+                        (Err(_), None) => {
+                            if after[..off.min(l)] != state[..off.min(l)] {
+                                bad = Some(("memory", "a refused transfer changed bytes before its range".into()));
+                            }
+                        }
+                    }
+                    if let Some(o) = outside.borrow().first() {
+                        bad = Some(("system-call-outside-any-live-window", o.clone()));
+                    }
+                    if on_demand && !r.emu.live().is_empty() {
+                        bad = Some(("window-left-mapped", format!("{:?}", r.emu.live())));
+                        r.emu.state.borrow_mut().live.clear();
+                        r.emu.state.borrow_mut().refs.clear();
+                    }
+                    let log = r.emu.take_log();
+                    if !on_demand && !log.is_empty() {
+                        bad = Some(("unexpected-device-request", format!("{:?}", log)));
+                    }
+                    let pe = std::mem::take(&mut r.emu.state.borrow_mut().protocol_errors);
+                    if !pe.is_empty() {
+                        bad = Some(("device-protocol", format!("{:?}", pe)));
+                    }
+                    if let Some((kk, d)) = bad {
+                        let key = format!("{}/{}", key_base, kk);
+                        let rpv = if ctx.has_failed(&key) { serde_json::Value::Null } else { rp() };
+                        ctx.fail(&key, &format!("{} at {:#x} count {}: {}", name, off, count, d), rpv);
+                    }
+                }
+            }
+        }
+        runs
+    }
+
     pub fn run(ctx: &Ctx, thorough: bool) {
         let emu = Emu::new(64);
         let mut fault_runs = 0u64;
         let mut windows_total = 0u64;
+        let mut fd_runs = 0u64;
         for (kind, pages) in [("grant-on-demand", 2usize), ("grant-on-demand", 3), ("grant-in-advance", 2), ("foreign", 2), ("unix", 2)] {
             let len = pages * 4096;
             // a foreign mapping always starts at offset 0 of the device file
@@ -410,6 +558,7 @@ mod xen {
                     fault_runs += faults(ctx, &r, &init, op, (k % 90) as u8 + 1);
                 }
             }
+            fd_runs += fd_transfers(ctx, &r, &init, thorough);
             // accessors that hand out plain references: nothing can keep a window mapped for them
             if kind == "grant-on-demand" && pages == 2 {
                 use std::sync::atomic::{AtomicU32, Ordering};
@@ -469,6 +618,7 @@ mod xen {
         }
         ctx.extra("max_simultaneous_windows_sum", json!(windows_total));
         ctx.extra("injected_fault_runs", json!(fault_runs));
+        ctx.extra("descriptor_transfers", json!(fd_runs));
         ctx.sample(json!({"region": "grant-on-demand, 2 pages", "op": "WriteObj { ty: U64, off: 4092 }", "required": "windows requested from the emulated gntdev cover guest pages 8 and 9; data lands at file offsets 0x8ffc..0x9004; no window left"}));
     }
 }
